@@ -138,6 +138,20 @@ func init() {
 		}
 		return fallthroughVal{}
 	})
+	reg(libPkg+"VerifProvide", func(fr *frame, args []Value) Value {
+		fr.x.provided[concStr(fr.x, args[0])] = args[1]
+		return nil
+	})
+	reg("(*net.ListenConfig).Listen", func(fr *frame, args []Value) Value {
+		l, ok := fr.x.provided["net.Listener"]
+		if !ok {
+			fr.x.unsupported("net.Listen without a provided listener (lib.VerifProvide)")
+		}
+		return Tuple{l, Iface{}}
+	})
+	reg("net.JoinHostPort", func(fr *frame, args []Value) Value {
+		return fr.x.mkStr(concStr(fr.x, args[0]) + ":" + concStr(fr.x, args[1]))
+	})
 	reg(libPkg+"VerifFireTimers", func(fr *frame, args []Value) Value {
 		n := 0
 		for fr.x.fireTimer() {
